@@ -114,6 +114,8 @@ def run(ctx):
                        base.rsplit('::', 1)[-1], sorted(x.rsplit('::', 1)[-1] for x in va), sorted(x.rsplit('::', 1)[-1] for x in vb)),
                    site='%s:%d' % (prog.bodies[q].file, prog.bodies[q].line))
         ctx.floor('constructor twins that call a verifier directly', 2, nt, cfg)
+        import twins
+        twins.check(ctx, cfg, prog, 'TWIN', lambda q_: q_.startswith(DTQ) and not q_.rsplit('::', 1)[-1].startswith('insert'), 5)
         ctx.info.setdefault('certified_bodies', {})[cfg] = sorted(C)
         # PLGATE
         m = 0
